@@ -15,6 +15,8 @@ use std::time::Instant;
 pub const DEFAULT_SEED: u64 = 20260927;
 /// wall-clock hang detector threshold per scenario (scenarios take micro- to milliseconds)
 pub const HANG_SECS: u64 = 300;
+/// a confirmation run (one scenario, fresh process) that takes longer than this counts as not terminating
+pub const CONFIRM_SECS: u64 = 120;
 
 #[derive(Clone, Copy, Debug, PartialEq, Eq)]
 pub enum Tier {
@@ -38,10 +40,14 @@ pub struct Violation {
 }
 impl Violation {
 	pub fn new(kind: impl Into<String>, detail: impl Into<String>) -> Self {
-		Violation {
-			kind: kind.into(),
-			detail: detail.into(),
+		// details quote values; values can be hundreds of KiB: keep the head and the tail
+		let mut detail: String = detail.into();
+		if detail.len() > 6000 {
+			let head: String = detail.chars().take(3000).collect();
+			let tail: String = detail.chars().rev().take(1500).collect::<Vec<_>>().into_iter().rev().collect();
+			detail = format!("{head} …[{} bytes]… {tail}", detail.len());
 		}
+		Violation { kind: kind.into(), detail }
 	}
 }
 
@@ -827,13 +833,29 @@ fn replay_in_child(id: &str, path: &Path) -> Result<Option<String>, String> {
 		.stderr(std::process::Stdio::piped())
 		.spawn()
 		.map_err(|e| e.to_string())?;
+	// the child's output is drained while it runs (a detail longer than the pipe's buffer would block it for ever)
+	let drain = |r: Option<Box<dyn std::io::Read + Send>>| {
+		std::thread::spawn(move || {
+			let mut buf = vec![];
+			if let Some(mut r) = r {
+				let _ = std::io::Read::read_to_end(&mut r, &mut buf);
+			}
+			buf
+		})
+	};
+	let t_out = drain(child.stdout.take().map(|s| Box::new(s) as Box<dyn std::io::Read + Send>));
+	let t_err = drain(child.stderr.take().map(|s| Box::new(s) as Box<dyn std::io::Read + Send>));
 	// hang detector for the confirmation run (wall clock, outside the simulated system)
 	let t0 = Instant::now();
+	let status;
 	loop {
 		match child.try_wait() {
-			Ok(Some(_)) => break,
+			Ok(Some(st)) => {
+				status = st;
+				break;
+			}
 			Ok(None) => {
-				if t0.elapsed().as_secs() > 60 {
+				if t0.elapsed().as_secs() > CONFIRM_SECS {
 					let _ = child.kill();
 					let _ = child.wait();
 					return Ok(Some("process-killed:hang".into()));
@@ -843,7 +865,12 @@ fn replay_in_child(id: &str, path: &Path) -> Result<Option<String>, String> {
 			Err(e) => return Err(e.to_string()),
 		}
 	}
-	let out = child.wait_with_output().map_err(|e| e.to_string())?;
+	struct Out {
+		status: std::process::ExitStatus,
+		stdout: Vec<u8>,
+		stderr: Vec<u8>,
+	}
+	let out = Out { status, stdout: t_out.join().unwrap_or_default(), stderr: t_err.join().unwrap_or_default() };
 	let stdout = String::from_utf8_lossy(&out.stdout);
 	for line in stdout.lines() {
 		if let Some(k) = line.strip_prefix("REPLAY-VIOLATION kind=") {
